@@ -10,7 +10,7 @@ ALL = ["C%02d" % i for i in range(1, 20)]
 CLAIMED = {
     "C16": ("exploration",
             "randomly generated concurrent programs (rapid) over the public API under the Go race detector, with a hang oracle (real clock, in-memory network)",
-            "rapid-generated programs on a real server and 1..3 real clients: 2..16 goroutines x 5..40 operations over ServerSocket (22 kinds), ClientSocket (16), Namespace/Server/Adapter (16), Manager (6), a third of them performed inside event handlers or ack callbacks of the addressed side, more from connection/disconnecting/disconnect/connect handlers, GOMAXPROCS in {1,2,4,16}, yields at the hook sites. The harness is built with -race; the oracle is the per-program delta of runtime.RaceErrors (report read from the GORACE log and attributed to the repository by the owner of each conflicting access), plus 'every phase returns' (program, an epilogue that uses every socket, manager and the namespace again, teardown), decided by two goroutine dumps 10 s apart that show the same goroutines parked in repository frames. Quick 240 programs, thorough 12 000. Sampling of schedules: a pass means no race / hang in the programs run, nothing more.",
+            "rapid-generated programs on a real server and 1..3 real clients: 2..16 goroutines x 5..40 operations over ServerSocket (22 kinds), ClientSocket (20, incl. bursts of connect/disconnect cycles and SetAuth), Namespace/Server/Adapter (16), Manager (10, incl. calls from OnceOpen/OnceClose handlers), session recovery with a cleaner every 2 ms, a third of them performed inside event handlers or ack callbacks of the addressed side, more from connection/disconnecting/disconnect/connect handlers, GOMAXPROCS in {1,2,4,16}, yields at the hook sites. The harness is built with -race; the oracle is the per-program delta of runtime.RaceErrors (report read from the GORACE log and attributed to the repository by the owner of each conflicting access), plus 'every phase returns' (program, an epilogue that uses every socket, manager and the namespace again, teardown), decided by two goroutine dumps 10 s apart that show the same goroutines parked in repository frames. Quick 240 programs, thorough 12 000; thorough also runs the other properties' rigs under the race detector and attributes any race in repository code to C16 (c16-rig-race). Sampling of schedules: a pass means no race / hang in the programs run, nothing more.",
             "The instrumented-mutex build (tag sio_deadlock) is not used as an oracle: a potential lock-order inversion is not a deadlock, and reporting it would raise false alarms; hangs are decided by the watchdog only.",
             "DESIGN.md §3 C16"),
     "C01": ("exploration",
@@ -59,12 +59,12 @@ CLAIMED = {
             "DESIGN.md §3 C08"),
     "C12": ("exploration",
             "property-based testing (rapid) of middleware chains on the virtual-time rig against a reference fold",
-            "Chains of 0..5 namespace middlewares (accept / reject with error, string or struct, optionally slow) on / and a custom namespace with 1..4 clients connecting concurrently and a broadcast issued while sockets are in the chain; chains of 0..3 per-socket event middlewares over five event signatures. Oracle: invocation indices 0..j in order, inside a middleware the socket is unlisted, in no room and not connected; all accept => one connect, listed, reachable; reject => connect_error carrying exactly that rejection, no handler, nothing listed; event middlewares see the emitted name and arguments before the handler; rejected => handler never runs.",
+            "Chains of 0..5 namespace middlewares (accept / reject with error, string or struct, optionally slow) on / and a custom namespace with 1..4 clients connecting concurrently and a broadcast issued while sockets are in the chain; chains of 0..3 per-socket event middlewares over five event signatures with 1..3 handlers per event, with and without the client asking for an ack the handler does not take, with connection state recovery (a recovered session passes the chain only if UseMiddlewares is set). Oracle: invocation indices 0..j in order, inside a middleware the socket is unlisted, in no room and not connected; all accept => one connect, listed, reachable; reject => connect_error carrying exactly that rejection, no handler, nothing listed; event middlewares see the emitted name and arguments before the handler; rejected => handler never runs.",
             "Virtual-time rig; five event signatures.",
             "DESIGN.md §3 C12"),
     "C14": ("exploration",
             "property-based testing (rapid) at Engine.IO level in virtual time with silently black-holed and delayed links",
-            "pingInterval/pingTimeout in {1,2,3} s x {polling, websocket, during the upgrade}. Dead peers: the link is black-holed at a drawn instant (1 ms resolution, biased to ping instants) in one or both directions; oracle: each side closes exactly once with a ping-timeout reason no later than (last delivered byte from the peer) + interval + timeout + 500 ms (+5 s close wait on WebSocket). Live peers: 30..200 idle periods with latency up to pingTimeout/2 and out-of-phase traffic; oracle: no close at all, pings keep coming, messages still flow.",
+            "pingInterval/pingTimeout in {1,2,3} s x {polling, websocket, during the upgrade}. Dead peers: the link is black-holed at a drawn instant (1 ms resolution, biased to ping instants) in one or both directions; oracle: each side closes exactly once with a ping-timeout reason no later than (last delivered byte from the peer) + interval + timeout + 500 ms (+5 s close wait on WebSocket). Live peers: 30..200 idle periods with latency up to pingTimeout/2 and out-of-phase traffic; oracle: no close at all, pings keep coming, messages still flow; during an upgrade the goroutine that swaps the transports (either side) is optionally held at its yield point across the instant of the first ping (forced schedule, bounded so that the pong is still in time).",
             "The bound is checked on the bubble's virtual clock: scheduler and GC pauses of a real deployment are not modelled.",
             "DESIGN.md §3 C14"),
     "C11": ("exploration",
@@ -93,30 +93,30 @@ CLAIMED = {
             "DESIGN.md §3 C10"),
     "C13": ("exploration",
             "small-scope exhaustive enumeration + rapid for the client batcher (validity predicate); rapid with hand-written HTTP/WebSocket peers for the server's limits per transport",
-            "Batcher: EXHAUSTIVE over every vector of <= 5 (quick) / <= 6 (thorough) packet sizes x every maxPayload, text and text/binary mixes, plus rapid vectors around 1e6; predicate: batches concatenate to the input, none empty, every multi-packet batch within maxPayload. Limits: MaxBufferSize in {100, 1000, 40000, default, disabled} x {POST with Content-Length, POST with chunked body, WebSocket text/binary message} from hand-written peers and server -> client over {polling, websocket} to the real client, sizes limit +- 12, x0.5, x2, x10, 32 KiB +- 12, 64 KiB +- 12; oracle: handshake announces the configured limit; within it => delivered in full, nothing closes; more than one byte beyond => never delivered and the connection closed; disabled => everything accepted.",
-            "WebTransport limits are covered at function level by C11 (no QUIC in the virtual-time network). One byte of slack at the boundary (whether the packet-type byte counts is not fixed by the text).",
+            "Batcher: EXHAUSTIVE over every vector of <= 5 (quick) / <= 6 (thorough) packet sizes x every maxPayload, text and text/binary mixes, plus rapid vectors around 1e6; predicate: batches concatenate to the input, none empty, every multi-packet batch within maxPayload. Limits: MaxBufferSize in {100, 1000, 40000, default, disabled} x {POST with Content-Length, POST with chunked body, the same two the JSON-P way, WebSocket text/binary message directly and after an upgrade} from hand-written peers and server -> client over {polling, websocket} to the real client, sizes limit +- 12, x0.5, x2, x10, 32 KiB +- 12, 64 KiB +- 12; oracle: handshake announces the configured limit; within it => delivered in full, nothing closes; more than one byte beyond => never delivered and the connection closed; disabled => everything accepted. c13-webtransport: the real client against the real server over real WebTransport (QUIC on UDP loopback, test certificates), directly and after an upgrade, both directions, MaxBufferSize {100, 40000, default, disabled}, sizes around the limit and 64 KiB; same oracle on events only.",
+            "The WebTransport leg runs on the real clock (waiting out 10 s counts as inconclusive, never as a verdict); its framing is also covered at function level by C11. One byte of slack at the boundary (whether the packet-type byte counts is not fixed by the text).",
             "DESIGN.md §3 C13"),
     "C15": ("exploration",
             "property-based testing (rapid): back-off function against its bounds + reconnect state machine with generated outages on the virtual-time rig",
             "(a) rapid over (delay, max, jitter, attempt) including overflow attempts, each evaluated 8 times: 0 < d <= max, first delay within the jitter band, no panic. (b) the real Manager against the real "
             "server over memnet in a synctest bubble: the server is taken away (links cut, dials refused) and given back after a drawn time (or never, or twice), with ReconnectionAttempts 0..5, three delays, "
-            "four max factors, three jitters, and 0..10 emits (plain / volatile / ack-with-timeout) before, during and after the outage and while the CONNECT is pending; oracle on the manager's reconnect_* "
+            "four max factors, three jitters, and 0..10 emits (plain / volatile / ack-with-timeout / Volatile and Timeout chained in either order) before, during and after the outage and while the CONNECT is pending; oracle on the manager's reconnect_* "
             "events with virtual timestamps (attempt numbers, every gap in (0, max], first gap in the jitter band, exactly N attempts then reconnect_failed once, then silence; reconnect when reachable) and "
-            "on delivery (offline plain emits exactly once and in order after the reconnect, volatile never, timed-out ack emits purged with ErrAckTimeout once); optionally one lifecycle dispatch held back (forced schedule). (c) c15-stream-order: producers that emit right through a reconnection against an endpoint that records arrival order (nothing overtakes the offline backlog). (d) c15-close-stops: Manager.Close() at a drawn microsecond of an outage stops the reconnection for good; Connect()/Open() later brings the socket up, delivers what was emitted meanwhile once, and reconnection works again.",
+            "on delivery (offline plain emits exactly once and in order after the reconnect, volatile never, timed-out ack emits purged with ErrAckTimeout once); optionally one lifecycle dispatch held back (forced schedule). (c) c15-stream-order: producers that emit right through a reconnection against an endpoint that records arrival order (nothing overtakes the offline backlog). (d) c15-close-stops: Manager.Close() at a drawn microsecond of an outage stops the reconnection for good; Connect()/Open() later brings the socket up, delivers what was emitted meanwhile once, and reconnection works again. (e) c15-retry-queue: a socket with Retries 1..3 (emits go through clientPacketQueue) against a server that acknowledges at once, emits before Connect, while a CONNECT is pending, online and offline: every queued event exactly once and in order, its ack function once, volatile offline never.",
             "Jitter comes from the library's use of math/rand's global source, so replays of cases with jitter > 0 are not bit-reproducible. Order of the offline flush is read from long-polling bodies only.",
             "DESIGN.md §3 C15"),
     "C17": ("exploration",
             "exhaustive request matrix + rapid schedules with a forced yield point (virtual time)",
-            "EXHAUSTIVE 2400-request matrix (method x EIO x transport x sid state x b64 x jsonp) through ServeHTTP against a fixture with live polling/WebSocket/closed sessions: protocol error code "
-            "belongs to the invalid aspects, no session created/closed, live sessions still work; 10^5..10^6 generated ids + real handshakes pairwise distinct; handshakes racing Server.Close in a "
+            "EXHAUSTIVE 4200-request matrix (method x EIO x transport x sid state x b64 x jsonp x HTTP/1.1 | HTTP/2) through ServeHTTP against a fixture with live polling/WebSocket/closed sessions: protocol error code "
+            "belongs to the invalid aspects, no session created/closed, live sessions still work; 10^5..10^6 generated ids + real handshakes pairwise distinct; rounds of 64 simultaneous handshakes; handshakes racing Server.Close in a "
             "synctest bubble with a yield hook before store.set (every created session gets exactly one close callback, nothing admitted after Close returned).",
             "The WebSocket live session runs over the in-memory network; requests are delivered through ServeHTTP on a recorder (no HTTP parsing by net/http for the matrix).",
             "DESIGN.md §3 C17"),
     "C18": ("exploration",
             "model-based stateful property testing (rapid) against a reference registry + concurrent bursts",
-            "rapid state machine over six registries through the public API with real occurrences in a virtual-time rig (server/client socket events, Namespace/Server connection handlers, client "
-            "connect/disconnect, Manager close), 8 distinct functions per signature, set of admissible models for duplicate registrations; occurrences singly and in simultaneous bursts; plus a "
-            "dedicated Once-vs-burst load test (each Once handler exactly once per burst).",
+            "rapid state machine over seven registries through the public API with real occurrences in a virtual-time rig (server/client socket events, Namespace events incl. names reserved for sockets only, Namespace/Server connection handlers, client "
+            "connect/disconnect, Manager close), 8 distinct functions per signature, set of admissible models for duplicate registrations; occurrences singly and in simultaneous bursts; a "
+            "dedicated Once-vs-burst load test (each Once handler exactly once per burst, registrations made while a burst is dispatched); and c18-off-concurrent: an Off call naming handlers at the same time as On / Once / Off / an occurrence on the same registry (commuting pairs, so the sequential model is the oracle), the registry pre-filled with 300..20000 registrations so that the calls overlap.",
             "Handlers are distinct top-level functions (Go identifies funcs by code pointer; closures of one literal are outside the sampled domain). Lifecycle cases whose connection attempt fails "
             "spontaneously are aborted and counted (the registry oracle needs a known number of occurrences).",
             "DESIGN.md §3 C18"),
